@@ -7,7 +7,9 @@ Tie (trace validation): the primitive file-system traces of REAL jug.backends.fi
 (dump of pickled values 0 B - MBs, raw .npy and compress_numpy arrays - numeric, string, datetime dtypes
 written with tofile(), and object / structured-with-object dtypes whose .npy body is a pickle written through
 Python's buffered writer -, re-dump, dump of a packed key,
-remove, remove_many, update_pack, resave_pack, cleanup, re-opened stores; dumps that let an EXCEPTION through in
+remove, remove_many, update_pack, resave_pack, cleanup, re-opened stores; the same with <jugdir>/tempfiles on another
+filesystem, where every rename out of it fails with EXDEV: the operation must raise and no final name may be opened,
+truncated, written or bound by anything but a rename; dumps that let an EXCEPTION through in
 the middle of the write - values whose pickling raises after part of the output was produced, a KeyboardInterrupt
 injected at a primitive boundary - on new keys and on keys that hold a result: dump() must raise, no final name
 may change, the trace must still be accepted) are recorded by the os-level
@@ -30,6 +32,7 @@ after the write finished, via hard links).  Redis: command trace of redis_store.
 command-atomic fake server."""
 import base64
 import contextlib
+import errno
 import gc
 import hashlib
 import io
@@ -343,6 +346,12 @@ def gen_scenario(rng, nops, big=False):
         else:
             compress = rng.random() < 0.5
             ops.append({'op': 'reopen', 'compress': compress})
+    if rng.random() < 0.12 and len(ops) > 5:
+        # from some point on <jugdir>/tempfiles is on another filesystem: every rename out of it fails with EXDEV
+        at = rng.randrange(3, len(ops) - 1)
+        tail = [op for op in ops[at:] if op['op'] in ('dump', 'update_pack', 'remove', 'resave_pack', 'reopen')
+                and 'raise_at' not in op and (op['op'] != 'dump' or expected_failure(op['val']) is None)]
+        ops = ops[:at] + [{'op': 'exdev', 'on': True}] + tail
     return {'name': 'random', 'compress': rng.random() < 0.4, 'ops': ops}
 
 
@@ -440,7 +449,24 @@ def fixed_scenarios(thorough):
                     {'op': 'dump', 'key': K(90), 'val': ['failing', 4, 1, 3000, 'ValueError', 'oarr', 1]},
                     {'op': 'dump', 'key': K(89), 'val': ['failing', 5, 2, 40000, 'KeyboardInterrupt', 'oarr', 1]},
                     {'op': 'dump', 'key': K(88), 'val': ['failing', 6, 2, 40000, 'OSError', 'list', 1]}]}
-    return [s1, s2, s3, s4, s5, s6]
+    # <jugdir>/tempfiles on another filesystem (symlink to node-local scratch, bind mount): os.rename out of it fails
+    # with EXDEV.  Nothing may then touch a final name except - never - a rename: dump() raises and changes nothing
+    s7 = {'name': 'tempfiles on another filesystem (EXDEV)', 'compress': False,
+          'ops': [{'op': 'dump', 'key': K(110), 'val': ['bytes', 1, 300]}, {'op': 'dump', 'key': K(111, 'ab'), 'val': ['int', 1]},
+                  {'op': 'dump', 'key': K(112), 'val': ['arr', 'float64', [30], 1, 'C']}, {'op': 'dump', 'key': K(113), 'val': ['bytes', 2, 30000]},
+                  {'op': 'update_pack'},
+                  {'op': 'exdev', 'on': True},
+                  {'op': 'dump', 'key': K(113), 'val': ['bytes', 3, 70000]},            # a key holding a result (file)
+                  {'op': 'dump', 'key': K(114), 'val': ['nested', 4, 300]},             # a new key
+                  {'op': 'dump', 'key': K(112), 'val': ['arr', 'int32', [8], 2, 'C']},  # raw .npy branch, key inside the pack
+                  {'op': 'dump', 'key': K(111, 'ab'), 'val': ['none']},                 # key inside the pack
+                  {'op': 'dump', 'key': K(115), 'val': ['oarr', 5, [4], 5, 'C']},
+                  {'op': 'update_pack'}, {'op': 'remove', 'key': K(113)}, {'op': 'resave_pack'},
+                  {'op': 'reopen', 'compress': True},
+                  {'op': 'dump', 'key': K(113), 'val': ['arr', 'uint8', [50], 6, 'C']},
+                  {'op': 'exdev', 'on': False},
+                  {'op': 'dump', 'key': K(113), 'val': ['int', 7]}, {'op': 'update_pack'}]}
+    return [s1, s2, s3, s4, s5, s6, s7]
 
 
 def scenario_keys(scn):
@@ -630,6 +656,10 @@ def do_op(box, op, jd):
     t = op['op']
     if t == 'dump':
         expect = (expected_failure(op['val']) or ()) + ((InjectedInterrupt,) if 'raise_at' in op else ())
+        if box[1:] and box[1]:
+            # EXDEV at the publishing rename; the raw .npy branch reports it as ValueError ('... closed file': its
+            # `except OSError` handler runs after the file was closed) - what matters is that dump() raises
+            expect = expect + (OSError, ValueError)
         if not expect:
             s.dump(mkvalue(op['val']), bx(op['key']))
             return None
@@ -639,9 +669,26 @@ def do_op(box, op, jd):
         except BaseException as e:
             if not isinstance(e, expect) or (type(e) is KeyboardInterrupt and KeyboardInterrupt not in expect):
                 raise
+            if isinstance(e, OSError) and OSError not in (expected_failure(op['val']) or ()) and e.errno != errno.EXDEV:
+                raise
+            if (isinstance(e, ValueError) and ValueError not in (expected_failure(op['val']) or ())
+                    and 'closed file' not in str(e)):
+                raise
             raised = True
         gc.collect()                         # the abandoned file object goes away now (its buffer reaches the temp file)
         if raised:
+            file_store(jd).remove_locks()
+            box[0] = file_store(jd, compress_numpy=s.compress_numpy)
+            return 'raised'
+    elif t == 'exdev':
+        return None                          # handled by record(): the interposer starts / stops failing renames
+    elif box[1:] and box[1] and t in ('remove', 'update_pack', 'resave_pack'):
+        # tempfiles/ is on another filesystem: the operation may fail with EXDEV at its publishing rename
+        try:
+            {'remove': lambda: s.remove(bx(op['key'])), 'update_pack': s.update_pack, 'resave_pack': s.resave_pack}[t]()
+        except OSError as e:
+            if e.errno != errno.EXDEV:
+                raise
             file_store(jd).remove_locks()
             box[0] = file_store(jd, compress_numpy=s.compress_numpy)
             return 'raised'
@@ -676,8 +723,10 @@ def record(scn, root, reader_stride=1, upto=None, only_reader_op=None):
     rec.failed = None
     expected = {}
     with ip:
-        box = [file_store(jd, compress_numpy=scn['compress'])]
+        box = [file_store(jd, compress_numpy=scn['compress']), False]
         for i, op in enumerate(scn['ops'][:upto]):
+            if op['op'] == 'exdev':
+                ip.exdev = box[1] = bool(op['on'])
             ip.sync_now()
             o = OpRec()
             o.index = i
@@ -737,12 +786,14 @@ def record(scn, root, reader_stride=1, upto=None, only_reader_op=None):
                 # an operation that let an exception through either changed nothing or (the signal came after the
                 # rename / a transient failure was retried) did all of its work: both are all-or-nothing
                 cands = [o.post]
-                if o.raised:
+                if o.raised and op['op'] != 'dump':
+                    cands = [o.pre, o.post]       # EXDEV: e.g. remove() unlinked the file before the pack could not be saved
+                elif o.raised:
                     cands = [o.pre] + ([o.post] if o.post is not o.pre and ('raise_at' in op or len(op.get('val', [])) > 6) else [])
                     # recorded observation (DESIGN.md, C05): dump() of a key that is inside the pack drops the packed value
                     # first (resave_pack) and only then writes the file, so an interrupted re-dump of a PACKED key may
                     # leave the key without a value; accepted only for a key that was in the pack when the dump began
-                    if op['key'] in o.pre and bx(op['key']) in packed_before:
+                    if op['op'] == 'dump' and op['key'] in o.pre and bx(op['key']) in packed_before and not box[1]:
                         cands.append(dict((k, v) for k, v in o.pre.items() if k != op['key']))
                 elif op['op'] == 'dump' and expected_failure(op['val']) is not None and len(op['val']) <= 6:
                     cands = [o.pre]               # an unpicklable value: nothing may change, raised or not
@@ -758,7 +809,8 @@ def record(scn, root, reader_stride=1, upto=None, only_reader_op=None):
                         break
                 good = [c for c, pr in results if not pr]
                 o.post = good[0] if good else cands[0]
-                o.old_value_dropped = bool(good) and o.raised and op['key'] in o.pre and op['key'] not in o.post
+                o.old_value_dropped = (bool(good) and o.raised and op['op'] == 'dump' and op['key'] in o.pre
+                                       and op['key'] not in o.post)
                 o.final_problems = [] if good else results[0][1]
                 if op['op'] == 'dump' and expected_failure(op['val']) is not None and len(op['val']) <= 6 and not o.raised:
                     o.final_problems.append(('dump of a value that cannot be pickled returned normally', op['key']))
@@ -1552,7 +1604,8 @@ def run(ck):
                 shape = op_shape(rec, rd, o)
                 ck.distinct(shape, len(shape[1]) > 0)
                 if o.op['op'] == 'dump' and (o.raised or expected_failure(o.op['val']) is not None):
-                    how = ('value whose pickling raises %s' % o.op['val'][4]) if expected_failure(o.op['val']) is not None else 'signal at a primitive boundary'
+                    how = (('value whose pickling raises %s' % o.op['val'][4]) if expected_failure(o.op['val']) is not None else
+                           'signal at a primitive boundary' if 'raise_at' in o.op else 'EXDEV at the publishing rename')
                     ck.count('dump that lets an exception through (%s): %s' % (
                         how, 'raised' if o.raised else 'completed'))
                     ck.count('dump that lets an exception through: key %s' % ('held a result' if o.op['key'] in o.pre else 'was new'))
